@@ -542,7 +542,7 @@ func genC15(tier string, r *Rng, emit func(Case)) {
 // genPlanted: searches that must stop at their answer, on counted endless sources (also run under C06: a search is an
 // operation whose highest delivered position is the end of its last reported match)
 func genPlanted(n int, r *Rng, emit func(Case)) {
-	plantsAt := []int{0, 1, 50, 98, 99, 100, 101, 102, 199, 200, 201, 650, 1200, 2300, 5150}
+	plantsAt := []int{0, 1, 50, 98, 99, 100, 101, 102, 199, 200, 201, 650, 1200, 2300, 5150, 3300, 4000, 4800, 7000}
 	for i := 0; i < n; i++ {
 		ver := allVers[i%3]
 		m := r.Range(1, 5)
